@@ -23,7 +23,7 @@ def jobs(tier):
     m = _model(tier)
     scheds, total = pure.select_states(m["dump"], None, "sched", keep=lambda b: "result = (1 :> <<\"none\">> @@ 2 :> <<\"none\">> @@ 3 :> <<\"none\">>)" in b or "pos = <<0" in b)
     scheds = [s["sched"] for s in scheds if all(p == 0 for p in s["pos"])]
-    fams = [("daily", "legacy"), ("hourly", "default"), ("hourly", "supp")] if tier == "quick" else [("daily", "legacy"), ("hourly", "default"), ("hourly", "supp"), ("billing", "billing"), ("daily", "current"), ("hourly", "robust")]
+    fams = [("daily", "legacy"), ("hourly", "default"), ("hourly", "supp")] if tier == "quick" else [("daily", "legacy"), ("hourly", "default"), ("hourly", "supp"), ("billing", "billing"), ("daily", "current"), ("hourly", "robust"), ("caltrack", "caltrack")]
     n = 3 if tier == "quick" else 12
     out = []
     for fam, prof in fams:
@@ -47,6 +47,8 @@ def jobs(tier):
                     script.append({"op": "make", "p": p, "d": b, "fam": fam, "kind": "baseline", "name": b.split(":")[1], "supp": prof == "supp"})
                     script.append({"op": "new", "p": p, "s": slot, "fam": fam, "prof": prof, "seed": seed})
                     script.append({"op": "fit", "p": p, "s": slot, "d": b, "ign": True})
+                    if fam == "caltrack":
+                        script.append({"op": "save", "p": p, "s": slot})
                     rr = REPORT[b]
                     script.append({"op": "make", "p": p, "d": rr, "fam": fam, "kind": "reporting", "name": rr.split(":")[1], "obs": "orig", "supp": prof == "supp"})
                     script.append({"op": "predict", "p": p, "s": slot, "d": rr, "ign": True, "agg": "None"})
